@@ -3,7 +3,9 @@
 Families: helpers (nhaploblk_chrom / haplobin / haplobin_bounds / haplomat, incl. dtype and memory-layout variants), problems
 (OHV in four encodings, OPV, genotype builder; built by from_pgmat_gpmod or by the selection protocols' problem(); models with
 u_misc and several fixed effects), lifecycle (long-lived problem objects changed through setters, in-place writes and copies;
-every evaluation judged on the current public state)."""
+every evaluation judged on the current public state), protocols (one selection protocol object - OPV, GB, OHV in four
+encodings - or one problem factory asked for its problem 3-6 times with one input changed between the calls; every returned problem
+judged on the inputs of its own call, earlier problems re-scored afterwards)."""
 import inspect
 
 import numpy
@@ -22,6 +24,7 @@ CLAUSES = {   # minimum evaluations per run (about a fifth of what a quick run m
     "C18.bound": 3000, "C18.finite": 10000,
     "C18.partition.order": 8000,
     "C18.state.latentfn": 12000, "C18.state.evalfn": 15000, "C18.state.props": 7000,
+    "C18.repeat.state": 5000, "C18.repeat.latentfn": 5000, "C18.repeat.earlier": 1500,
 }
 HOOKS_REQUIRED = ["haplobin<-haplomat", "haplobin<-OptimalHaploidValueSelectionProblemMixin._calc_haplomat",
                   "haplobin<-OptimalPopulationValueSelectionProblemMixin._calc_haplomat",
@@ -46,7 +49,15 @@ RULE = ("seeded class-based marker layouts: 1-4 chromosomes (non-consecutive lab
         "long-lived OPV/GB/OHV(4 encodings) objects built by constructor (arbitrary float64/float32/int64 state in hostile layouts) or "
         "from_pgmat_gpmod, then 2-5 operations out of {state setter same shape / other ploidy+block count, in-place write, obj_wt "
         "setter, nbestfndr setter, deep/shallow copy then change the copy, re-evaluate}, each followed by latentfn, evalfn and pymoo "
-        "_evaluate (one solution and a population) judged on the object's current public state.  Non-trivial: >= 2 "
+        "_evaluate (one solution and a population) judged on the object's current public state; family 'protocols': one "
+        "OptimalPopulationValue / GenotypeBuilder / OptimalHaploidValue{Subset,Real,Integer,Binary}Selection object (75%) or the "
+        "matching from_pgmat_gpmod factory with the same matrix object (25%) is asked for its problem 3-6 times (>= 2 taxa); between two "
+        "calls one of: model replaced by a new object, gpmod.u_a written in place / reassigned through the setter, nhaploblk changed "
+        "(lowest, highest, random admissible total), genotype matrix replaced (new object, deep copy then written, select_taxa of "
+        "a subset/permutation), pgmat.mat written in place, nparent / unique_parents / nbestfndr changed through the protocol's "
+        "setters, protocol deep/shallow copied, nothing changed; each returned problem's haplomat / ohvmat / decn_space_xmap / "
+        "ndecn / nbestfndr and two latentfn scores (OPV also the doubled-haploid bound) are judged on the inputs of that call, and "
+        "one earlier problem whose inputs were not written in place since is re-scored on the inputs of its own call.  Non-trivial: >= 2 "
         "markers and >= 1 block boundary possible (nblk >= 2); distinct = digest of positions, chromosome sizes, block total, "
         "genotypes and effects.")
 ASSUME = [
@@ -71,6 +82,11 @@ ASSUME = [
     "through a setter or written in place through the returned array; evalfn/_evaluate with the default identity transformation give "
     "obj_wt * latent vector; results in float32 state are compared with 64*eps32 relative tolerance",
     "selection protocols' problem() is in-domain for >= 2 taxa and nbestfndr <= nparent*ncross",
+    "a problem returned by protocol.problem(pgmat, ..., gpmod, ...) or from_pgmat_gpmod answers for the public state of pgmat, gpmod and "
+    "the protocol attributes AT THE TIME OF THAT CALL, however often and with whatever inputs the same objects were used before; a problem "
+    "already returned keeps answering for the inputs of its own call (re-scored only while those input objects were not written in place)",
+    "when a call does not go through the hooked partition helpers, the reference partition is the one the helpers return for the same "
+    "(positions, chromosome bounds, nhaploblk) in a direct call (they are deterministic functions), itself judged by the partition clauses",
 ]
 TRUSTED = ["pbmon.oracle.haploblocks (marker-by-marker sums, mosaic-haplotype enumeration)"]
 
@@ -1332,7 +1348,10 @@ def case_protocols(ctx, c):
                 except Exception as e:
                     ctx.raised("protocols: harness operation 'nparent shrunk'", e)
                     return
-        icls = ("first call" if step == 0 else "later call on the same %s/%s" % ("protocol object" if via_protocol else "factory and matrix object", op)) + copied
+        # finding keys carry the coarse class of what changed since the previous call; the exact operation is in the witness
+        grp = "model changed" if op.startswith("model") else "genotypes changed" if op.startswith("genotype") else \
+            "nhaploblk changed" if op.startswith("nhaploblk") else "same inputs again" if op.startswith("same") else "nparent / unique_parents / nbestfndr changed"
+        icls = "first call" if step == 0 else "later call on the same %s/%s" % ("protocol object" if via_protocol else "factory and matrix object", grp)
         ctx.sumnote("protocols step: " + op)
         Gc, uc, nblk, nparent, unique, nbest = cur["G"], cur["u"], cur["nblk"], cur["nparent"], cur["unique"], cur["nbest"]
         nn = Gc.shape[1]
@@ -1440,7 +1459,7 @@ def case_protocols(ctx, c):
             wx = {"kind": kind, "via": msite, "built_at_step": r_["step"], "rescored_after_step": step, "x": x, "expected": expl}
             okc, lv = guarded(ctx, lsite, "earlier problem re-scored", coords, lambda: r_["p"].latentfn(x), wx)
             if not okc or not ctx.check("C18.repeat.earlier", close(ctx, "repeat latentfn error", lv, expl, r_["eps"]), msite,
-                                        "an earlier problem still scores the inputs of its own call after later calls", "later call: " + op + copied,
+                                        "an earlier problem still scores the inputs of its own call after later calls", "after a later call/" + grp,
                                         witness=dict(wx, got=lv), coords=coords):
                 return
         earlier.append({"p": p, "pg": pg, "mod": mod, "step": step, "draw": draw_x, "exp_of": exp_of, "eps": eps, "live": True})
